@@ -155,7 +155,7 @@ def main(argv=None):
         all_obs.extend(r.obligations)
     lemma_obs = []
     for lem in prop.lemmas:
-        if a.only:
+        if a.only and a.only != 'lemma':
             continue
         set_float_mode(lem.float_mode)
         try:
